@@ -11,6 +11,7 @@
 (*        n bytes crossed the measuring point: tx = accepted by the        *)
 (*        network from the limited side, rx = handed to the limited        *)
 (*        session after rxWait                                             *)
+(*   {ev:"activate", t}   a new user record (full buckets) was made        *)
 (*   {ev:"backlog.start"|"backlog.end", dir, t}                            *)
 (*        between them at least one sender of that direction always has    *)
 (*        more to send                                                     *)
@@ -95,7 +96,17 @@ TBacklogEnd ==
             /\ cur' = x
          /\ UNCHANGED <<scn, cfg>>
 
-TNext == TReset \/ TPass \/ TBacklogStart \/ TBacklogEnd
+\* the user is activated anew (a fresh ActiveUser record with full buckets, life-cycle scenarios): the interval
+\* bound grants one more burst to every interval that contains the activation
+TActivate ==
+         /\ IsEvent("activate")
+         /\ \A x \in Dirs : Ev.t >= last[x]
+         /\ q' = [x \in Dirs |-> VQPass(q[x], Flow(x, Ev.t) + cfg[x].burst, 0)]
+         /\ last' = [x \in Dirs |-> Ev.t]
+         /\ cur' = "-"
+         /\ UNCHANGED <<scn, cfg, d, dpre, bl>>
+
+TNext == TReset \/ TPass \/ TBacklogStart \/ TBacklogEnd \/ TActivate
 TSpec == TInit /\ [][TNext]_tvars
 
 -----------------------------------------------------------------------------
